@@ -3,7 +3,9 @@
 use crate::jgen;
 use crate::rng::Rng;
 
-pub const METHODS: [&str; 11] = [
+pub const METHODS: [&str; 13] = [
+	"ext_info",
+	"ext_info_async",
 	"seq3",
 	"echo_sync",
 	"echo_async",
